@@ -503,7 +503,8 @@ func redactPipelineStage(stage interface{}, redactFieldNames bool, keyPath []str
 						}
 						newMap.Set(redactedKey, redactedArr)
 					} else {
-						newMap.Set(redactedKey, v)
+						// a single clause / operand where a list is usual: walked like an element of the list
+						newMap.Set(redactedKey, redactPipelineStage(v, redactFieldNames, newKeyPath, inSearchStage))
 					}
 					continue
 				}
@@ -573,7 +574,8 @@ func redactPipelineStage(stage interface{}, redactFieldNames bool, keyPath []str
 										}
 										newSubMap.Set(subK, redactedArr)
 									} else {
-										newSubMap.Set(subK, subV)
+										// a single clause / operand where a list is usual: walked like an element of the list
+										newSubMap.Set(subK, redactPipelineStage(subV, redactFieldNames, newKeyPath, inSearchStage))
 									}
 									continue
 								case Pipeline:
